@@ -3497,8 +3497,15 @@ orc_compiler_sse_register_rules (OrcTarget *target)
       ORC_TARGET_SSE_SSE4_2);
 
   REG(cmpgtsq);
-  /* uses pcmpgtq, which is SSE4.2 */
+
+#ifndef MMX
+  /* SSE 4.1 and SSE 4.2 */
+  rule_set = orc_rule_set_new (orc_opcode_set_get("sys"), target,
+      ORC_TARGET_SSE_SSE4_1 | ORC_TARGET_SSE_SSE4_2);
+
+  /* uses blendvpd (SSE4.1) and pcmpgtq (SSE4.2) */
   orc_rule_register (rule_set, "convsssql", sse_rule_convsssql_sse41, NULL);
+#endif
 
   /* SSE 4a -- no rules */
 }
